@@ -10,8 +10,6 @@ package main
 
 import (
 	"fmt"
-	"os"
-	"runtime/pprof"
 	"sort"
 	"strings"
 	"sync"
@@ -542,12 +540,6 @@ func newWorld(label string, allowEC bool) (*irworld.World, *fix, error) {
 
 func main() {
 	r := ev.Start("C37", ev.Exploration)
-	if pf := os.Getenv("VERIF_CPUPROFILE"); pf != "" {
-		fh, _ := os.Create(pf)
-		pprof.StartCPUProfile(fh)
-		defer pprof.StopCPUProfile()
-		go func() { time.Sleep(20 * time.Second); pprof.StopCPUProfile(); fh.Close(); os.Exit(3) }()
-	}
 	am := authMenu()
 	if r.Replay != "" {
 		var c ccase
